@@ -116,7 +116,8 @@ def int_obligations(tier, seed):
 
 
 def obligations(tier, seed):
-    return int_obligations(tier, seed) + fp_obligations(tier, seed)
+    from props.internal import c05_internal
+    return int_obligations(tier, seed) + fp_obligations(tier, seed) + c05_internal(tier)
 
 
 # the floating-point scaling step `x * k` / `x / k` (ApplyMagnitudeImpl<..., float|double, false>::operator()) is replaced by its
